@@ -35,6 +35,8 @@ class PatTable:
         self.name = name
         self.prio = prio
         self.outcome = outcome            # ('variant', idx) | ('skip',)
+        self.cb_fn = None
+        self.cb_kind = None
         self.n = d['nstates']
         self.start = d['start']
         self.classes = d['classes']
@@ -220,6 +222,15 @@ class Reference:
                 if sq is not False and p.more[q]:
                     parts.append(sq)
         return s_and(simp(self.ex.len == bvv(j, U)), s_or(*parts))
+
+    def winner_in(self, t, e, idxs):
+        """some pattern of the index set is a highest-priority pattern among those matching bytes[t..e]"""
+        alts = []
+        for pi in idxs:
+            p = self.pats[pi]
+            higher = [self.M(qi, t, e) for qi, q in enumerate(self.pats) if q.prio > p.prio]
+            alts.append(s_and(self.M(pi, t, e), s_not(s_or(*higher))))
+        return s_or(*alts)
 
     def winner_ok(self, t, e, outcome):
         """the outcome (variant idx / skip) belongs to a highest-priority pattern among those matching
